@@ -6,7 +6,7 @@ from . import c06
 MANIFEST = dict(
    technique="Translation validation per generated program (gozodgen run on the rule matrix in a temp dir; go/parser + `go build` of every emitted file; T{}.Schema().Parse vs FromStruct[T]().Parse on boundary values) + Lean 4 theorems over the regenerated tables (emitted method chains vs observed FromStruct behaviour, `decide`) and about a transcription of the generator's string-literal formatting; round 2: Lean transcription of gozodgen's OWN tag splitter / rule parser (cmd/gozodgen/analyzer.go) proved equal to the pkg/tagparser model on a decidable region (witnesses outside), tied by a differential run through the real functions (go-build overlay hook), a Lean transcription of the field emitter checked textually against every emitted expression, and wide programs (several files, many structs, ~17 fields per struct, repeated tag texts, all rule orders, tricky parameters) compiled and run against FromStruct",
    text="Lean: c13_regex_quote (the regex escaping round-trips through a Go string literal for every pattern without newline), c13_quote_partial / c13_quote_full_false (`default=` parameters are emitted unescaped: a quote or backslash breaks the literal), c13_equiv_partial / c13_typechecks_partial over the regenerated Gen.genTable x Gen.tagTable (`decide`), with the excluded cells being listed known findings and witness theorems; c13_split_partial / c13_parse_partial (genSplit = tagparser.splitParts, genParseTag = tagparser.parseTag on splitRegion / parseRegion, all strings), c13_split_witnesses / c13_parse_witnesses (the full statements are false), c13_emit_reads_tagparser. Tie: every run regenerates both tables from the working tree, compiles the generated programs against the library and compares the two schemas on every probe; the chain semantics used in Lean (denote) is validated against the compiled generated code on every probe.",
-   note="Round 4: Gen/MethodTable.lean (reflection over the library: every constructor gozodgen names, every schema type reachable through the methods it can emit, ALL their methods) + GenTyped.wellTyped: c13_welltyped_partial proves every expression emitted for a scalar field (any rule list of the region) well typed against the WHOLE regenerated table (c13_table_closed), witnesses outside; the typing judgement and the emitted text are compared with go build / the written file on every matrix cell and ~450 one-struct programs over every field kind (texpr). Termination: GenTerm (typesToReflectType over named-type environments), c13_term_acyclic / c13_term_struct_graphs, c13_term_full_false (`type A []A`), term ops run gozodgen on such packages. PARTIAL: 'the written file is valid Go that type-checks' is DECIDED by go/parser and `go build -gcflags=-e` in the tie; the Lean judgement covers constructor/method existence, arity, inferability and constant representability, not full Go typing. The matrix is finite (C06 matrix: documented rules x field types x both orders of two rules x boundary probes) plus sampled parameter strings; behaviour is compared on structs grouping the type-checking cells (field expressions checked textually identical to the one-struct-per-cell output) and on a seeded sample compiled one struct at a time. Trusted: Lean kernel, axioms propext/Classical.choice/Quot.sound, the Go toolchain, harness and comparer. Go string-literal reader in Lean models one-character escapes only.",
+   note="Round 4b: the transcription of the writer is parameterised by structure facts read from writer.go / analyzer.go with go/ast on every run (Gen/WriterFacts.lean: which variant of each of 12 decisions the tree contains — the pinned one or the one of a pending/C13-*.diff), so model and theorems follow a landed patch without an edit; typing of container constructors (explicit instantiation, gozod.Record's value schema must parse to exactly V: output-type patterns of the constructors read by reflection); c13_illtyped_rows_are_open + C13W.c13_open_compile_classes_exact: over 517 rows (every kind of field type x the tags of its class) the files that do not type-check are exactly the `open:` does-not-compile classes of known-findings.txt; c13_equiv_partial covers 421 compiling matrix cells on /repo d766956 (FromStruct side repaired by the C06 fixes). New ops: mname (several names in one field declaration), bfile (structs in _test.go / build-constrained files), JSON-valued default= on slice fields. Round 4: Gen/MethodTable.lean (reflection over the library: every constructor gozodgen names, every schema type reachable through the methods it can emit, ALL their methods) + GenTyped.wellTyped: c13_welltyped_partial proves every expression emitted for a scalar field (any rule list of the region) well typed against the WHOLE regenerated table (c13_table_closed), witnesses outside; the typing judgement and the emitted text are compared with go build / the written file on every matrix cell and ~450 one-struct programs over every field kind (texpr). Termination: GenTerm (typesToReflectType over named-type environments), c13_term_acyclic / c13_term_struct_graphs, c13_term_full_false (`type A []A`), term ops run gozodgen on such packages. PARTIAL: 'the written file is valid Go that type-checks' is DECIDED by go/parser and `go build -gcflags=-e` in the tie; the Lean judgement covers constructor/method existence, arity, inferability and constant representability, not full Go typing. The matrix is finite (C06 matrix: documented rules x field types x both orders of two rules x boundary probes) plus sampled parameter strings; behaviour is compared on structs grouping the type-checking cells (field expressions checked textually identical to the one-struct-per-cell output) and on a seeded sample compiled one struct at a time. Trusted: Lean kernel, axioms propext/Classical.choice/Quot.sound, the Go toolchain, harness and comparer. Go string-literal reader in Lean models one-character escapes only.",
    design="DESIGN.md §5 C13")
 
 MODULES = ["Gozod.Proofs.C13", "Gozod.Proofs.C13Split", "Gozod.Proofs.C13Typed", "Gozod.Proofs.C13Term"]
